@@ -1,7 +1,7 @@
 (* C10 -- Each interactive command or web request sees the pristine profile.
    Property theorems only (each closed by [exact] of a lemma of L_Session, or by computation on
    the tables regenerated from /repo on every run), followed by Print Assumptions. *)
-From PV Require Import M_Config M_Session S_Session L_Session Gen.Gen_ConfigTable Gen.Gen_CommandTable.
+From PV Require Import M_Config M_Flags L_Flags M_Session S_Session L_Session Gen.Gen_ConfigTable Gen.Gen_CommandTable.
 Open Scope string_scope.
 Open Scope Z_scope.
 
@@ -86,6 +86,20 @@ Theorem requests_commute : forall e cur reqs sched,
   w_cur s = cur /\ forall i r, w_resp s i = Some r -> r = answer e cur reqs i.
 Proof. exact requests_commute_lemma. Qed.
 Print Assumptions requests_commute.
+
+(* ---------- end to end: the option state a run starts from ---------- *)
+(* `pprof <option flags> profile`: a flag touches only the option it names (a choice flag the
+   option it is a value of); without option flags the session / web UI starts from the defaults *)
+Theorem option_flags_touch_only_named_options : forall pf fs c fl c' f,
+  nodup_str (map f_name fs) = true -> config_flags pf fs c fl = Ok c' -> In f fs ->
+  flag_get fl (f_name f) = None -> (forall ch, In ch (f_choices f) -> flag_true fl ch = false) ->
+  c' (f_name f) = c (f_name f).
+Proof. exact config_flags_untouched. Qed.
+Print Assumptions option_flags_touch_only_named_options.
+
+Theorem no_option_flags_no_change : forall pf fs c, config_flags pf fs c [] = Ok c.
+Proof. exact config_flags_nil. Qed.
+Print Assumptions no_option_flags_no_change.
 
 (* ---------- the hypotheses are satisfiable / the model does what one expects ---------- *)
 Definition env0 : env :=
